@@ -1297,31 +1297,58 @@ func frozenEntries(c *Ctx, w *World) {
 					c.sawFunc(fname(fn))
 					// the record the entry belongs to: which copy functions produced it?
 					deep, shared := false, ""
-					backward(entry, func(v ssa.Value) bool {
-						if cc, isCall := v.(*ssa.Call); isCall {
-							if co := calleeObj(cc); co != nil {
-								switch co.Name() {
-								case "DeepCopy":
-									deep = true
-								case "PartialCopy":
-									shared = "PartialCopy"
-								case "GetDelegationFrom", "NewDelegationFrom":
-									// a getter / constructor of entries: fresh only if it hands out a copy on every return
-									if g := cc.Call.StaticCallee(); returnsFresh(g) {
-										deep = true
-									} else if shared == "" {
-										shared = co.Name() + " (which returns the live entry)"
-									}
-								default:
-									if strings.HasPrefix(co.Name(), "GetValidator") && shared == "" {
-										shared = co.Name()
+					// an entry handed to a named helper: judged by what its callers hand over
+					origins := []ssa.Value{entry}
+					if prm, isP := stripConvNoBind(entry).(*ssa.Parameter); isP && prm.Parent() != nil && prm.Parent().Parent() == nil {
+						idx := -1
+						for i, q := range prm.Parent().Params {
+							if q == prm {
+								idx = i
+							}
+						}
+						var fromCallers []ssa.Value
+						for _, site := range w.Callers(prm.Parent()) {
+							if idx >= 0 && idx < len(site.Common().Args) {
+								fromCallers = append(fromCallers, site.Common().Args[idx])
+							}
+						}
+						if len(fromCallers) > 0 {
+							origins = fromCallers
+						}
+					}
+					nDeep := 0
+					for _, origin := range origins {
+						deepHere := false
+						backward(origin, func(v ssa.Value) bool {
+							if cc, isCall := v.(*ssa.Call); isCall {
+								if co := calleeObj(cc); co != nil {
+									switch co.Name() {
+									case "DeepCopy":
+										deepHere = true
+									case "PartialCopy":
+										shared = "PartialCopy"
+									case "GetDelegationFrom", "NewDelegationFrom":
+										// a getter / constructor of entries: fresh only if it hands out a copy on every return
+										if g := cc.Call.StaticCallee(); returnsFresh(g) {
+											deepHere = true
+										} else if shared == "" {
+											shared = co.Name() + " (which returns the live entry)"
+										}
+									default:
+										if strings.HasPrefix(co.Name(), "GetValidator") && shared == "" {
+											shared = co.Name()
+										}
 									}
 								}
+								return false
 							}
-							return false
+							return true
+						})
+						if deepHere {
+							nDeep++
 						}
-						return true
-					})
+					}
+					deep = nDeep == len(origins)
 					okE := deep && shared != "PartialCopy"
 					c.Check(fmt.Sprintf("%s#entry-edited-in-place-%d", fname(fn), n), ci.Pos(), okE, ifelse(okE, "the entry belongs to a DeepCopy", "an amount of a delegation entry is changed in place ("+o.Name()+") on a record obtained with "+ifelse(shared != "", shared, "no DeepCopy")+": the entry is shared with the record the journal keeps as pre-image, so a revert restores totals and statistics but not the entry"))
 				}
